@@ -17,7 +17,7 @@ RULE = ('seeded scenarios x seeded inputs x a family of deliveries of the same b
         'once the reference matcher says no longer match is possible. distinct = event-log hash, non-trivial = >= 2 tokens and >= 2 reads')
 TIERS = {
     'quick': {'scenarios': 32, 'inputs': 6, 'wall_cap': 600},
-    'thorough': {'scenarios': 700, 'inputs': 12, 'wall_cap': 3300},
+    'thorough': {'scenarios': 1400, 'inputs': 12, 'wall_cap': 3300},
 }
 COMPONENTS = sb.COMPONENTS
 ASSUMPTIONS = ['REJECT scanners and user-owned yy_scan_buffer buffers may stop with the documented fatal error when the token does not fit (legitimacy bound of DESIGN 5.4)',
@@ -184,7 +184,9 @@ def work(ctx, idx):
             wr.notes.append('scn %d: abandoned after %d runs ended by the wall-clock backstop' % (idx, hangs))
             break
         irng = ctx.rng('scn', idx, 'in', ii)
-        big = irng.random() < 0.08
+        # (big inputs only where scanning is linear: with trailing context every token may look ahead to the end
+        # of the input, and 40 000 tokens times 40 000 bytes of look-ahead is a legitimately slow run, not a hang)
+        big = irng.random() < 0.08 and not sc.has_trailing()
         ln = irng.randint(20000, 70000) if big else irng.randint(1, 40)
         alpha = sc.alphabet
         data = gen_input(irng, alpha, ln, stray=irng.choice([0, 0.03]))
